@@ -11,8 +11,9 @@
 
   `findAndRemove` is the inner loop (first match, removal of the matched occurrence),
   `findMatches` the comprehension over the source.  `eq` is an arbitrary predicate (parameter).
-  Modelled, not proved: `list.remove(t)` removes the occurrence that was matched (true whenever no
-  earlier element is `==` t; for name matching on `Field` dataclasses an earlier element has another name).
+  `list.remove(t)` removes the occurrence that was matched whenever no earlier element is `==` t (for name
+  matching on `Field` dataclasses an earlier element has another name); for elements whose `==` is equality this is
+  proved against the translated source (`C11_source_find_matches`, `Fc.PyLite.C11M.findAndRemove_eq_erase`).
 -/
 namespace Fc
 
